@@ -94,6 +94,11 @@ Proof.
       destruct H1 as [->|(j & _ & ->)]; [lia|]. pose proof (pow2_pos j). lia.
 Qed.
 
+(* with a table, or with the threshold 0 the implementation has before the first insertion,
+   WF is just Model/WF.v's wf_b *)
+Lemma wf_b_WF s : wf_b khash s = true -> (tbl s = None -> sc s = 0) -> WF s.
+Proof. intros H1 H2. split; [exact H1|]. intros E. left. apply H2. exact E. Qed.
+
 Definition tlen_s (s : st) : Z := match tbl s with None => 0 | Some t => tlen t end.
 
 (* "the counter is below the threshold unless the table cannot grow": holds in every reachable state *)
@@ -114,6 +119,12 @@ Hypothesis Hyp_put : forall b e, tb_b b = true -> lb_find (tord b) (nh e) (nk e)
 Hypothesis Hyp_set : forall b h k v, tb_b b = true -> tb_b (tb_set b h k v) = true.
 Hypothesis Hyp_remove : forall b h k b', tb_b b = true -> lb_find (tord b) h k <> None ->
   tb_remove b h k = (b', false) -> tb_b b' = true.
+
+(* lia generalises over hypotheses that quantify over numbers; keep the tree facts out of its sight
+   so that every lemma depends only on the facts it really uses *)
+Ltac lia_ :=
+  try clear Hyp_find; try clear Hyp_new; try clear Hyp_put; try clear Hyp_set; try clear Hyp_remove;
+  try clear remap; try clear keep; lia.
 
 (* ------------------------------------------------------------------------------------------ *)
 (** * Lookups read the node listing *)
@@ -136,7 +147,7 @@ Lemma get_node_some_tbl t sc0 cnt0 k :
   get_node khash (mkSt (Some t) sc0 cnt0) k = bin_find (get_bin t (bini t (khash k))) (khash k) k.
 Proof.
   intros H. pose proof (WFT_len_pos khash t H) as Hpos. unfold get_node. cbn [tbl].
-  destruct t; [cbn [length] in Hpos; lia|reflexivity].
+  destruct t; [cbn [length] in Hpos; inversion Hpos|reflexivity].
 Qed.
 
 Lemma get_node_lookup s k : WFS s -> get_node khash s k = lookup (nodes s) k.
@@ -252,13 +263,13 @@ Proof.
       as [A1 A2]; [exact P1|exact D1| | |].
     { unfold split_untreeify_low, UNTREEIFY_THRESHOLD. intros C ->. cbn [length] in C. discriminate. }
     { intros C. apply negb_false_iff, Z.eqb_eq in C. split; [|exact Ht]. apply Hhi0.
-      destruct hi; [reflexivity|]. cbn [length] in C. lia. }
+      destruct hi; [reflexivity|]. cbn [length] in C. lia_. }
     destruct (half_ok (2 ^ Z.of_nat (S j)) (i + 2 ^ j) t hi
                 (split_untreeify_high (Z.of_nat (length hi))) (negb (Z.of_nat (length lo) =? 0)))
       as [B1 B2]; [exact P2|exact D2| | |].
     { unfold split_untreeify_high, UNTREEIFY_THRESHOLD. intros C ->. cbn [length] in C. discriminate. }
     { intros C. apply negb_false_iff, Z.eqb_eq in C. split; [|exact Ht]. apply Hlo0.
-      destruct lo; [reflexivity|]. cbn [length] in C. lia. }
+      destruct lo; [reflexivity|]. cbn [length] in C. lia_. }
     split; [exact A1|]. split; [exact B1|]. rewrite A2, B2. exact Hperm.
   - destruct Hok.
 Qed.
@@ -297,11 +308,11 @@ Proof.
   intros H Hlt. pose proof H as ((j & Hj & E) & Hb & Hd).
   pose proof (tlen_pow2 t j E) as El. rewrite MAXIMUM_CAPACITY_eq in Hlt.
   assert (Hj' : (j < 30)%nat).
-  { rewrite El in Hlt. change 30 with (Z.of_nat 30) in Hlt. apply Z.pow_lt_mono_r_iff in Hlt; lia. }
+  { rewrite El in Hlt. change 30 with (Z.of_nat 30) in Hlt. apply Z.pow_lt_mono_r_iff in Hlt; lia_. }
   unfold transfer_all. rewrite El. set (n := Z.to_N (2 ^ Z.of_nat j)).
   set (parts := map (split_bin n) t).
   assert (Elen : length (map fst parts ++ map snd parts) = (2 ^ S j)%nat).
-  { unfold parts. rewrite app_length, !map_length, E. cbn [Nat.pow]. lia. }
+  { unfold parts. rewrite app_length, !map_length, E. cbn [Nat.pow]. lia_. }
   assert (Etl : tlen (map fst parts ++ map snd parts) = 2 ^ Z.of_nat (S j)).
   { apply tlen_pow2. exact Elen. }
   assert (Hperm : Permutation (flat_map bin_nodes t)
@@ -312,7 +323,7 @@ Proof.
     apply (split_bin_ok j i b Hok (WFT_bin_nodup t i b H Hi)). }
   split; [|split].
   - split; [|split].
-    + exists (S j). split; [lia|exact Elen].
+    + exists (S j). split; [lia_|exact Elen].
     + intros i b Hi. rewrite Etl.
       destruct (Nat.lt_ge_cases i (length t)) as [Hlo|Hhi].
       * rewrite nth_error_app1 in Hi by (unfold parts; rewrite !map_length; exact Hlo).
@@ -324,11 +335,11 @@ Proof.
         unfold parts in Hi. rewrite !map_length in Hi. rewrite map_map, nth_error_map in Hi.
         destruct (nth_error t (i - length t)) as [b0|] eqn:Hi0; [|discriminate]. injection Hi as <-.
         pose proof (Hb _ b0 Hi0) as Hok. rewrite El in Hok.
-        replace i with (i - length t + 2 ^ j)%nat at 1 by lia.
+        replace i with (i - length t + 2 ^ j)%nat at 1 by lia_.
         apply (split_bin_ok j _ b0 Hok (WFT_bin_nodup t _ b0 H Hi0)).
     + eapply Permutation_NoDup; [apply keys_perm; exact Hperm|exact Hd].
   - exact Hperm.
-  - rewrite Etl, Nat2Z.inj_succ, Z.pow_succ_r by lia. reflexivity.
+  - rewrite Etl, Nat2Z.inj_succ, Z.pow_succ_r by lia_. reflexivity.
 Qed.
 
 (* ------------------------------------------------------------------------------------------ *)
@@ -343,12 +354,12 @@ Definition grows (s s' : st) : Prop :=
   (sized s -> sized s').
 
 Lemma grows_refl s : WFS s -> grows s s.
-Proof. intros H. split; [exact H|]. split; [reflexivity|]. split; [reflexivity|]. split; [lia|tauto]. Qed.
+Proof. intros H. split; [exact H|]. split; [reflexivity|]. split; [reflexivity|]. split; [lia_|tauto]. Qed.
 
 Lemma grows_trans a b c : grows a b -> grows b c -> grows a c.
 Proof.
   intros (A1 & A2 & A3 & A4 & A5) (B1 & B2 & B3 & B4 & B5).
-  split; [exact B1|]. split; [etransitivity; eassumption|]. split; [congruence|]. split; [lia|tauto].
+  split; [exact B1|]. split; [etransitivity; eassumption|]. split; [congruence|]. split; [lia_|tauto].
 Qed.
 
 Lemma grows_lookup s s' k : WFS s -> grows s s' -> lookup (nodes s') k = lookup (nodes s) k.
@@ -367,13 +378,13 @@ Proof.
   destruct (WFT_tlen_pow2 t Ht) as (j & Hj & Ej).
   assert (Hj' : (j < 30)%nat).
   { rewrite MAXIMUM_CAPACITY_eq, Ej in Hlt. change 30 with (Z.of_nat 30) in Hlt.
-    apply Z.pow_lt_mono_r_iff in Hlt; lia. }
+    apply Z.pow_lt_mono_r_iff in Hlt; lia_. }
   unfold grows, WFS, sized, tlen_s, nodes. rewrite Et. cbn [tbl sc cnt].
   split; [|split; [exact T2|split; [reflexivity|split]]].
   - split; [exact T1|]. rewrite T3, Ej. apply next_threshold_pow2. exact Hj'.
-  - pose proof (WFT_len_bounds khash t Ht). lia.
+  - pose proof (WFT_len_bounds khash t Ht). lia_.
   - rewrite Ej, next_threshold_pow2 by exact Hj'. rewrite Hsc, Ej.
-    pose proof (lf_double (2 ^ Z.of_nat j)). pose proof (pow2_pos j). rewrite Ej in Hlt. lia.
+    pose proof (lf_double (2 ^ Z.of_nat j)). pose proof (pow2_pos j). rewrite Ej in Hlt. lia_.
 Qed.
 
 Lemma grow_loop_grows fuel : forall s c, WFS s -> grows s (grow_loop fuel s c).
@@ -395,7 +406,7 @@ Lemma grow_loop_full fuel s c t :
 Proof.
   intros Et H. destruct fuel; cbn [grow_loop]; [reflexivity|].
   destruct (add_count_below c (sc s)); [reflexivity|]. rewrite Et.
-  unfold add_count_full. destruct (Z.geb_spec (tlen t) MAXIMUM_CAPACITY); [reflexivity|lia].
+  unfold add_count_full. destruct (Z.geb_spec (tlen t) MAXIMUM_CAPACITY); [reflexivity|lia_].
 Qed.
 
 (* with enough fuel the loop ends below the threshold or at the maximum length *)
@@ -405,7 +416,7 @@ Lemma grow_loop_sized fuel : forall s t,
 Proof.
   induction fuel as [|fuel IH]; intros s t H Et Hf; cbn [grow_loop].
   - exfalso. unfold WFS in H. rewrite Et in H. destruct H as [Ht _].
-    pose proof (WFT_len_bounds khash t Ht). change (2 ^ Z.of_nat 0) with 1 in Hf. lia.
+    pose proof (WFT_len_bounds khash t Ht). change (2 ^ Z.of_nat 0) with 1 in Hf. lia_.
   - destruct (add_count_below (cnt s) (sc s)) eqn:Eb.
     { unfold add_count_below in Eb. apply Z.ltb_lt in Eb. unfold sized. rewrite Et. left; exact Eb. }
     rewrite Et. destruct (add_count_full (tlen t)) eqn:Ef.
@@ -420,7 +431,7 @@ Proof.
     + rewrite Er. reflexivity.
     + unfold WFS in H. rewrite Et in H. destruct H as [Ht _].
       destruct (transfer_all_ok t Ht Ef) as (_ & _ & T3). rewrite T3.
-      rewrite Nat2Z.inj_succ, Z.pow_succ_r in Hf by lia. lia.
+      rewrite Nat2Z.inj_succ, Z.pow_succ_r in Hf by lia_. lia_.
 Qed.
 
 Lemma WFS_empty (j : nat) c0 :
@@ -428,7 +439,7 @@ Lemma WFS_empty (j : nat) c0 :
   WFS (mkSt (Some (empty_table (2 ^ Z.of_nat j))) (load_factor (2 ^ Z.of_nat j)) c0).
 Proof.
   intros Hj. unfold WFS. cbn [tbl sc]. split; [apply WFT_empty; exact Hj|].
-  rewrite tlen_empty_table; [reflexivity|]. pose proof (pow2_pos j). lia.
+  rewrite tlen_empty_table; [reflexivity|]. pose proof (pow2_pos j). lia_.
 Qed.
 
 Lemma presize_loop_grows fuel : forall c s,
@@ -438,7 +449,7 @@ Proof.
   destruct (try_presize_busy (sc s)); [apply grows_refl; exact H|].
   destruct (tbl s) as [[|b t]|] eqn:Et.
   - exfalso. unfold WFS in H. rewrite Et in H. destruct H as [Ht _].
-    pose proof (WFT_len_pos khash _ Ht) as Hpos. cbn [length] in Hpos. lia.
+    pose proof (WFT_len_pos khash _ Ht) as Hpos. cbn [length] in Hpos. lia_.
   - destruct (try_presize_stop c (sc s) (tlen (b :: t))) eqn:Es; [apply grows_refl; exact H|].
     unfold try_presize_stop in Es. apply orb_false_iff in Es as [_ Es].
     rewrite Z.geb_leb in Es; apply Z.leb_gt in Es.
@@ -447,15 +458,15 @@ Proof.
   - assert (Hn : exists j : nat, (j <= 30)%nat /\ try_presize_new_capacity c (sc s) = 2 ^ Z.of_nat j).
     { unfold try_presize_new_capacity. destruct Hc as (j & Hj & ->).
       unfold WFS in H. rewrite Et in H. destruct H as [->|(j' & Hj' & ->)].
-      - exists j. split; [exact Hj|]. pose proof (pow2_pos j). lia.
-      - exists (Nat.max j j'). split; [lia|apply pow2_max]. }
+      - exists j. split; [exact Hj|]. pose proof (pow2_pos j). lia_.
+      - exists (Nat.max j j'). split; [lia_|apply pow2_max]. }
     destruct Hn as (j & Hj & En). rewrite En. unfold try_presize_threshold.
     pose proof (WFS_empty j (cnt s) Hj) as H1.
     eapply grows_trans; [|apply IH; [exact Hc|exact H1]].
     split; [exact H1|]. unfold nodes, tlen_s, sized. rewrite Et. cbn [tbl sc cnt].
     rewrite nodes_empty_table. split; [constructor|]. split; [reflexivity|]. split.
-    + rewrite tlen_empty_table; pose proof (pow2_pos j); lia.
-    + intros ->. left. pose proof (lf_pos (2 ^ Z.of_nat j) (pow2_pos j)). lia.
+    + rewrite tlen_empty_table; pose proof (pow2_pos j); lia_.
+    + intros ->. left. pose proof (lf_pos (2 ^ Z.of_nat j) (pow2_pos j)). lia_.
 Qed.
 
 Lemma try_presize_grows s size : WFS s -> grows s (try_presize s size).
@@ -484,7 +495,7 @@ Proof.
   split; [split; assumption|]. split.
   - etransitivity; [apply nodes_get_perm; exact Hi|]. rewrite Eb.
     apply Permutation_sym. apply (nodes_set_perm t i (BTree (tb_new l))).
-  - split; [reflexivity|]. split; [lia|tauto].
+  - split; [reflexivity|]. split; [lia_|tauto].
 Qed.
 
 Lemma add_count_grows s d hint :
@@ -511,7 +522,7 @@ Proof.
   assert (H1 : WFS s1) by exact H.
   assert (Hs1 : sized s1).
   { unfold sized in Hs |- *. unfold s1. cbn [tbl sc cnt]. rewrite add_count_stored_eq.
-    rewrite Et in Hs. rewrite Et. lia. }
+    rewrite Et in Hs. rewrite Et. lia_. }
   destruct hint; [|exact Hs1]. apply (grow_loop_grows 40 s1 _ H1). exact Hs1.
 Qed.
 
@@ -523,7 +534,7 @@ Proof.
   apply (grow_loop_sized 40 s1 t H1 Et).
   unfold WFS in H. rewrite Et in H. destruct H as [Ht _].
   pose proof (WFT_len_bounds khash t Ht) as Hb. rewrite MAXIMUM_CAPACITY_eq in Hb |- *.
-  change (2 ^ Z.of_nat 40) with 1099511627776. change (2 ^ 30) with 1073741824 in Hb |- *. lia.
+  change (2 ^ Z.of_nat 40) with 1099511627776. change (2 ^ 30) with 1073741824 in Hb |- *. lia_.
 Qed.
 
 (* ------------------------------------------------------------------------------------------ *)
@@ -733,16 +744,16 @@ Proof.
   cbv zeta. destruct (add_count_grows s2 1 true Hs2) as (A1 & A2 & A3 & A4).
   split; [|split; [|split]].
   - apply WF_iff. split; [exact A1|]. rewrite A3, <- (Permutation_length A2), (grows_length s1 s2 Hg), Hlen1.
-    destruct Hg as (_ & _ & -> & _). unfold s1. cbn [cnt]. lia.
+    destruct Hg as (_ & _ & -> & _). unfold s1. cbn [cnt]. lia_.
   - intros k'. rewrite <- (lookup_perm (nodes s2) _ k' (WFS_nodup s2 Hs2) A2).
     rewrite (grows_lookup s1 s2 k' Hs1 Hg). apply Hlk.
   - destruct Hg as (_ & _ & _ & G & _). unfold tlen_s in G at 1. unfold s1 in G. cbn [tbl] in G.
-    rewrite tlen_set_bin in G by exact Hi. unfold tlen_s at 1. rewrite Et. lia.
+    rewrite tlen_set_bin in G by exact Hi. unfold tlen_s at 1. rewrite Et. lia_.
   - destruct (tbl s2) as [t2|] eqn:Et2.
     + apply (add_count_sized_inc s2 t2 Hs2 Et2).
     + exfalso. destruct Hg as (_ & _ & _ & G & _). unfold tlen_s in G. rewrite Et2 in G.
       unfold s1 in G. cbn [tbl] in G. rewrite tlen_set_bin in G by exact Hi.
-      pose proof (WFT_len_bounds khash t Ht). lia.
+      pose proof (WFT_len_bounds khash t Ht). lia_.
 Qed.
 
 (* the node with key k was removed from bin i, then the counter is decremented *)
@@ -785,11 +796,11 @@ Proof.
     rewrite lb_find_lookup by exact Hk. rewrite Hf. discriminate. }
   cbv zeta. destruct (add_count_grows s1 (-1) hint Hs1) as (A1 & A2 & A3 & A4).
   split; [|split; [|split; [exact Hfk|split; [|split]]]].
-  - apply WF_iff. split; [exact A1|]. rewrite A3, <- (Permutation_length A2). unfold s1 at 1. cbn [cnt]. lia.
+  - apply WF_iff. split; [exact A1|]. rewrite A3, <- (Permutation_length A2). unfold s1 at 1. cbn [cnt]. lia_.
   - intros k'. rewrite <- (lookup_perm (nodes s1) _ k' (WFS_nodup s1 Hs1) A2). apply Hlk.
   - unfold tlen_s in A4 at 1. unfold s1 in A4 at 1. cbn [tbl] in A4.
     rewrite tlen_set_bin in A4 by exact Hi. unfold tlen_s at 1. rewrite Et. exact A4.
-  - intros Hz. apply (add_count_sized_dec s1 (-1) hint (set_bin t i b') Hs1 eq_refl); [lia|].
+  - intros Hz. apply (add_count_sized_dec s1 (-1) hint (set_bin t i b') Hs1 eq_refl); [lia_|].
     unfold sized, s1 in Hz |- *. cbn [tbl sc cnt]. rewrite Et in Hz. rewrite tlen_set_bin by exact Hi. exact Hz.
   - intros ->. unfold tlen_s. rewrite add_count_nohint_tbl. unfold s1. cbn [tbl]. rewrite Et.
     apply tlen_set_bin. exact Hi.
@@ -820,16 +831,16 @@ Lemma init_table_ok s :
   (sized s -> sized (init_table s)).
 Proof.
   intros H. unfold init_table. destruct (tbl s) as [[|b t]|] eqn:Et.
-  - exfalso. pose proof (WFT_len_pos khash _ (WF_some s [] H Et)) as Hpos. cbn [length] in Hpos. lia.
+  - exfalso. pose proof (WFT_len_pos khash _ (WF_some s [] H Et)) as Hpos. cbn [length] in Hpos. lia_.
   - split; [exact H|]. split; [reflexivity|]. split; [exists (b :: t); exact Et|].
-    split; [reflexivity|]. split; [lia|tauto].
+    split; [reflexivity|]. split; [lia_|tauto].
   - pose proof H as H0. apply WF_iff in H0 as [Hs Hc]. unfold WFS in Hs. rewrite Et in Hs.
     unfold nodes in Hc. rewrite Et in Hc. cbn [length] in Hc.
     assert (Hn : exists j : nat, (j <= 30)%nat /\ init_table_n (sc s) = 2 ^ Z.of_nat j).
     { unfold init_table_n, DEFAULT_CAPACITY. destruct Hs as [->|(j & Hj & ->)].
-      - exists 4%nat. split; [lia|reflexivity].
+      - exists 4%nat. split; [lia_|reflexivity].
       - exists j. split; [exact Hj|]. pose proof (pow2_pos j).
-        destruct (Z.gtb_spec (2 ^ Z.of_nat j) 0); [reflexivity|lia]. }
+        destruct (Z.gtb_spec (2 ^ Z.of_nat j) 0); [reflexivity|lia_]. }
     destruct Hn as (j & Hj & En). rewrite En. unfold init_table_sc.
     pose proof (WFS_empty j (cnt s) Hj) as H1.
     split; [|split; [|split; [|split; [|split]]]].
@@ -837,8 +848,8 @@ Proof.
     + unfold nodes. cbn [tbl]. rewrite Et. apply nodes_empty_table.
     + eexists; reflexivity.
     + congruence.
-    + unfold tlen_s. rewrite Et. cbn [tbl]. unfold tlen. lia.
-    + intros _. unfold sized. cbn [tbl sc cnt]. left. pose proof (lf_pos _ (pow2_pos j)). lia.
+    + unfold tlen_s. rewrite Et. cbn [tbl]. unfold tlen. lia_.
+    + intros _. unfold sized. cbn [tbl sc cnt]. left. pose proof (lf_pos _ (pow2_pos j)). lia_.
 Qed.
 
 Definition put_abs (m : amap) (k i : N) (v : Z) (nr : bool) : amap :=
@@ -971,7 +982,7 @@ Lemma remove_some s t k :
   end.
 Proof.
   intros H Et. unfold Seq.remove. rewrite Et. pose proof (WFT_len_pos khash t (WF_some s t H Et)) as Hpos.
-  destruct t; [cbn [length] in Hpos; lia|reflexivity].
+  destruct t; [cbn [length] in Hpos; lia_|reflexivity].
 Qed.
 
 Lemma remove_ok s k :
@@ -1101,14 +1112,14 @@ Proof.
     { unfold tlen_s, s'. cbn [tbl]. rewrite Et. unfold tlen. rewrite map_length. reflexivity. }
     destruct (Z.eqb_spec (- Z.of_nat (length (nodes s))) 0) as [E|E].
     + split; [|split; [exact Hn|split; [exact Htl|]]].
-      * apply WF_iff. split; [exact Hs'|]. rewrite Hn. unfold s'. cbn [cnt length]. lia.
-      * unfold sized, s'. cbn [tbl sc cnt]. left. lia.
+      * apply WF_iff. split; [exact Hs'|]. rewrite Hn. unfold s'. cbn [cnt length]. lia_.
+      * unfold sized, s'. cbn [tbl sc cnt]. left. lia_.
     + unfold add_count. cbn [tbl sc cnt]. rewrite add_count_stored_eq. fold s'.
       split; [|split; [exact Hn|split; [exact Htl|]]].
       * apply WF_iff. split; [exact Hs'|]. cbn [cnt].
         change (nodes {| tbl := tbl s'; sc := sc s'; cnt := cnt s' + - Z.of_nat (length (nodes s)) |}) with (nodes s').
-        rewrite Hn. unfold s'. cbn [cnt length]. lia.
-      * unfold sized, s'. cbn [tbl sc cnt]. left. lia.
+        rewrite Hn. unfold s'. cbn [cnt length]. lia_.
+      * unfold sized, s'. cbn [tbl sc cnt]. left. lia_.
   - split; [exact H|]. unfold nodes, tlen_s, sized. rewrite Et.
     split; [reflexivity|]. split; [reflexivity|]. apply WF_iff in H as [_ Hc]. unfold nodes in Hc.
     rewrite Et in Hc. exact Hc.
@@ -1206,10 +1217,10 @@ Lemma put_all_ok items : forall s,
   tlen_s s <= tlen_s (put_all khash s items) /\ (sized s -> sized (put_all khash s items)).
 Proof.
   unfold put_all, aput_all. induction items as [|[[k i] v] items IH]; intros s H; cbn [fold_left].
-  - split; [exact H|]. split; [reflexivity|]. split; [lia|tauto].
+  - split; [exact H|]. split; [reflexivity|]. split; [lia_|tauto].
   - destruct (put_ok s k i v false H) as (P1 & P2 & _ & P4 & P5).
     destruct (IH _ P1) as (I1 & I2 & I3 & I4).
-    split; [exact I1|]. split; [|split; [lia|tauto]].
+    split; [exact I1|]. split; [|split; [lia_|tauto]].
     intros x. rewrite I2. apply (aput_all_ext items). intros y. rewrite P2. reflexivity.
 Qed.
 
@@ -1222,7 +1233,7 @@ Proof.
   intros H. unfold extend. set (r := if slen s =? 0 then hint else (hint + 1) / 2).
   destruct (reserve_ok s r H) as (R1 & R2 & R3 & R4).
   destruct (put_all_ok items _ R1) as (I1 & I2 & I3 & I4).
-  split; [exact I1|]. split; [|split; [lia|tauto]].
+  split; [exact I1|]. split; [|split; [lia_|tauto]].
   intros k. rewrite I2. apply aput_all_ext. exact R2.
 Qed.
 
@@ -1241,7 +1252,7 @@ Qed.
 
 Lemma good_readonly s out : WF s -> good s (s, out) (abs khash s) out.
 Proof.
-  intros H. split; [exact H|]. split; [reflexivity|]. split; [reflexivity|]. cbn [fst]. split; [lia|tauto].
+  intros H. split; [exact H|]. split; [reflexivity|]. split; [reflexivity|]. cbn [fst]. split; [lia_|tauto].
 Qed.
 
 Lemma get_node_key s k n : WF s -> get_node khash s k = Some n -> nk n = k.
@@ -1250,7 +1261,7 @@ Proof.
 Qed.
 
 Lemma slen_wf s : WF s -> slen s = spec_n s.
-Proof. intros H. unfold slen, spec_n. rewrite (wf_len s H). lia. Qed.
+Proof. intros H. unfold slen, spec_n. rewrite (wf_len s H). lia_. Qed.
 
 Theorem put_refines s k i v :
   WF s -> good s (step khash remap keep s (Insert k i v))
@@ -1285,9 +1296,9 @@ Proof.
   { intros x. unfold adel. rewrite !abs_wf by assumption. rewrite R2. destruct (x =? k)%N; reflexivity. }
   rewrite (abs_wf s k H), <- R3.
   split; [|split; [|split; exact R4]].
-  - split; [exact R1|]. split; [exact Habs|]. cbn [fst snd]. split; [|split; [lia|exact R5]].
+  - split; [exact R1|]. split; [exact Habs|]. cbn [fst snd]. split; [|split; [lia_|exact R5]].
     destruct r; reflexivity.
-  - split; [exact R1|]. split; [exact Habs|]. cbn [fst snd]. split; [|split; [lia|exact R5]].
+  - split; [exact R1|]. split; [exact Habs|]. cbn [fst snd]. split; [|split; [lia_|exact R5]].
     destruct r as [n|]; [|reflexivity]. cbn [option_map ent].
     symmetry in R3. apply lookup_some in R3 as [_ ->]. reflexivity.
 Qed.
@@ -1304,7 +1315,7 @@ Theorem clear_refines s :
                (spec_out remap (abs khash s) Clear (spec_n s) (spec_l s)).
 Proof.
   intros H. destruct (clear_ok s H) as (C1 & C2 & C3 & C4). cbn [step spec_state spec_out].
-  split; [exact C1|]. cbn [fst snd]. split; [|split; [reflexivity|split; [lia|tauto]]].
+  split; [exact C1|]. cbn [fst snd]. split; [|split; [reflexivity|split; [lia_|tauto]]].
   intros k. rewrite abs_wf by exact C1. rewrite C2. reflexivity.
 Qed.
 
@@ -1318,7 +1329,7 @@ Theorem retain_refines s p :
          (spec_out remap (abs khash s) (RetainForce p) (spec_n s) (spec_l s)).
 Proof.
   intros H. destruct (retain_ok s p H) as (R1 & R2 & R3 & R4). cbn [step spec_state spec_out].
-  split; (split; [exact R1|]; cbn [fst snd]; split; [exact R2|split; [reflexivity|split; [lia|exact R4]]]).
+  split; (split; [exact R1|]; cbn [fst snd]; split; [exact R2|split; [reflexivity|split; [lia_|exact R4]]]).
 Qed.
 
 Theorem reserve_refines s n :
@@ -1417,13 +1428,13 @@ Lemma run_from ops : forall s acc,
 Proof.
   induction ops as [|o ops IH]; intros s acc H; cbn [fold_left].
   - exists s, []. rewrite app_nil_r. split; [reflexivity|]. split; [exact H|].
-    split; [constructor; reflexivity|]. split; [lia|tauto].
+    split; [constructor; reflexivity|]. split; [lia_|tauto].
   - destruct (step_good s o H) as (G1 & G2 & G3 & G4 & G5).
     change (run_step (s, acc) o) with (let '(s', r) := step khash remap keep s o in (s', acc ++ [r])).
     destruct (step khash remap keep s o) as [s1 r]. cbn [fst snd] in G1, G2, G3, G4, G5 |- *.
     destruct (IH s1 (acc ++ [r]) G1) as (s' & outs & E & W & R & L & Zs).
     exists s', (r :: outs). rewrite E, <- app_assoc. split; [reflexivity|]. split; [exact W|].
-    split; [|split; [lia|tauto]].
+    split; [|split; [lia_|tauto]].
     rewrite G3. unfold spec_n, spec_l. rewrite <- (map_length entry (nodes s)).
     apply (SR_cons _ _ _ _ (abs khash s1)); [apply nodes_lists_abs; exact H|exact G2|exact R].
 Qed.
@@ -1453,7 +1464,17 @@ Proof.
     { apply WF_iff. split; [exact Hs|]. rewrite Hn. reflexivity. }
     split; [exact Hw|]. split; [|split; [exact Hn|]].
     + intros k. rewrite abs_wf by exact Hw. rewrite Hn. reflexivity.
-    + unfold sized. cbn [tbl sc cnt]. left. pose proof (lf_pos _ (pow2_pos j)). lia.
+    + unfold sized. cbn [tbl sc cnt]. left. pose proof (lf_pos _ (pow2_pos j)). lia_.
+Qed.
+
+(* every state reachable from a fresh map is well formed and below its threshold (or full) *)
+Theorem reachable_wf_sized c ops :
+  let '(s', _) := run khash remap keep (with_capacity c) ops in WF s' /\ sized s'.
+Proof.
+  destruct (with_capacity_wf c) as (W & _ & _ & Z0).
+  pose proof (run_refines (with_capacity c) ops W) as R.
+  destruct (run khash remap keep (with_capacity c) ops) as [s' outs].
+  destruct R as (R1 & _ & _ & R4). split; [exact R1|apply R4; exact Z0].
 Qed.
 
 (* ------------------------------------------------------------------------------------------ *)
@@ -1502,7 +1523,7 @@ Proof.
     unfold sized in Hz. rewrite Et in Hz. destruct Hz as [Hz|Hz].
     + rewrite grow_loop_below.
       * unfold tlen_s. cbn [tbl]. rewrite Et. exact El.
-      * cbn [sc]. unfold add_count_below. rewrite add_count_stored_eq. apply Z.ltb_lt. lia.
+      * cbn [sc]. unfold add_count_below. rewrite add_count_stored_eq. apply Z.ltb_lt. lia_.
     + rewrite (grow_loop_full _ _ _ t').
       * unfold tlen_s. cbn [tbl]. rewrite Et. exact El.
       * reflexivity.
@@ -1512,17 +1533,17 @@ Qed.
 (* ---------- when does an insertion grow the table? ---------- *)
 
 Lemma tlen_transfer_all t : tlen (transfer_all t) = 2 * tlen t.
-Proof. unfold transfer_all, tlen. rewrite app_length, !map_length. lia. Qed.
+Proof. unfold transfer_all, tlen. rewrite app_length, !map_length. lia_. Qed.
 
 Lemma presize_loop_mono fuel : forall c s, tlen_s s <= tlen_s (presize_loop fuel c s).
 Proof.
-  induction fuel as [|fuel IH]; intros c s; cbn [presize_loop]; [lia|].
-  destruct (try_presize_busy (sc s)); [lia|].
+  induction fuel as [|fuel IH]; intros c s; cbn [presize_loop]; [lia_|].
+  destruct (try_presize_busy (sc s)); [lia_|].
   destruct (tbl s) as [[|b t]|] eqn:Et.
-  - eapply Z.le_trans; [|apply IH]. unfold tlen_s. rewrite Et. cbn [tbl]. unfold tlen. cbn [length]. lia.
-  - destruct (try_presize_stop _ _ _); [lia|]. eapply Z.le_trans; [|apply IH].
-    unfold resize_once, tlen_s. rewrite Et. cbn [tbl]. rewrite tlen_transfer_all. unfold tlen. lia.
-  - eapply Z.le_trans; [|apply IH]. unfold tlen_s. rewrite Et. cbn [tbl]. unfold tlen. lia.
+  - eapply Z.le_trans; [|apply IH]. unfold tlen_s. rewrite Et. cbn [tbl]. unfold tlen. cbn [length]. lia_.
+  - destruct (try_presize_stop _ _ _); [lia_|]. eapply Z.le_trans; [|apply IH].
+    unfold resize_once, tlen_s. rewrite Et. cbn [tbl]. rewrite tlen_transfer_all. unfold tlen. lia_.
+  - eapply Z.le_trans; [|apply IH]. unfold tlen_s. rewrite Et. cbn [tbl]. unfold tlen. lia_.
 Qed.
 
 Lemma presize_loop_same fuel c s b t :
@@ -1533,7 +1554,7 @@ Proof.
   destruct (try_presize_stop _ _ _); [reflexivity|]. intros E. exfalso.
   pose proof (presize_loop_mono fuel c (resize_once s)) as M. rewrite E in M.
   unfold resize_once, tlen_s in M. rewrite Et in M. cbn [tbl] in M. rewrite tlen_transfer_all in M.
-  unfold tlen in M. cbn [length] in M. lia.
+  unfold tlen in M. cbn [length] in M. lia_.
 Qed.
 
 Lemma try_presize_same s size b t :
@@ -1561,7 +1582,7 @@ Qed.
 Lemma add_count_inc_change s :
   tlen_s (add_count s 1 true) <> tlen_s s -> sc s <= cnt s + 1.
 Proof.
-  intros Hne. destruct (Z.lt_ge_cases (cnt s + 1) (sc s)) as [Hlt|]; [|lia]. exfalso. apply Hne.
+  intros Hne. destruct (Z.lt_ge_cases (cnt s + 1) (sc s)) as [Hlt|]; [|lia_]. exfalso. apply Hne.
   unfold add_count. rewrite grow_loop_below; [reflexivity|].
   cbn [sc]. unfold add_count_below. apply Z.ltb_lt. exact Hlt.
 Qed.
@@ -1586,7 +1607,7 @@ Proof.
   pose proof (WF_some _ t H Et) as Ht.
   assert (Hi : (bini t (khash k) < length t)%nat) by apply (WFT_bini_lt khash t _ Ht).
   assert (Hcons : exists b0 t0, t = b0 :: t0).
-  { pose proof (WFT_len_pos khash t Ht) as Hpos. destruct t as [|b0 t0]; [cbn [length] in Hpos; lia|eauto]. }
+  { pose proof (WFT_len_pos khash t Ht) as Hpos. destruct t as [|b0 t0]; [cbn [length] in Hpos; lia_|eauto]. }
   unfold put, growth_due. rewrite Einit, Et. set (i0 := bini t (khash k)) in *.
   (* the state with bin i0 replaced *)
   assert (Hs' : forall b', tlen_s (mkSt (Some (set_bin t i0 b')) (sc s) (cnt s)) = tlen t).
@@ -1609,7 +1630,7 @@ Proof.
       * unfold tlen_s. rewrite Et. congruence.
       * intros Hne. apply Htree in Hne as [Hb Hc]. right. split; [|exact Hc].
         revert Hb. destruct (lb_pos l (khash k) k 1) as [c|] eqn:Ep; intros Hb.
-        -- apply lb_pos_bound in Ep. lia.
+        -- apply lb_pos_bound in Ep. lia_.
         -- apply lb_pos_find in Ep. congruence.
     + cbn [fst]. set (s1 := mkSt (Some (set_bin t i0 (BList (l ++ [N_ (khash k) k i v])))) (sc s) (cnt s)).
       set (s2 := if put_treeify (Z.of_nat (length l)) then treeify_bin s1 i0 else s1).
@@ -1692,4 +1713,64 @@ Qed.
 End TreeFacts.
 End WithHash.
 
-About nodes_lists_abs. About wf_len. About remove_ok. About put_ok. About compute_ok. About retain_ok. About clear_ok. About reserve_ok. About readonly_refines. About with_capacity_wf. About compute_callback_before_write. About removal_never_grows. About compute_never_grows. About growth_only_when_due.
+(* ------------------------------------------------------------------------------------------ *)
+(** * After the sections: corollaries, counterexamples, assumptions *)
+
+(* E, second form: compute_if_present depends on the callback only through its result on the
+   value currently stored under the key *)
+Theorem compute_reads_callback_once (khash : N -> N) (remap1 remap2 : N -> N -> Z -> option Z)
+  (Hyp_find : forall b h k, tb_b b = true -> t_find (troot b) h k = lb_find (tord b) h k) s0 k f :
+  WF khash s0 ->
+  (forall i v, abs khash s0 k = Some (i, v) -> remap1 f k v = remap2 f k v) ->
+  compute khash remap1 s0 k f = compute khash remap2 s0 k f.
+Proof.
+  intros H E.
+  destruct (compute_callback_before_write khash remap1 Hyp_find s0 k f H) as [_ C1].
+  destruct (compute_callback_before_write khash remap2 Hyp_find s0 k f H) as [_ C2].
+  destruct (abs khash s0 k) as [[i v]|].
+  - destruct C1 as (t1 & E1 & ->). destruct C2 as (t2 & E2 & ->). rewrite E1 in E2.
+    injection E2 as <-. rewrite (E i v eq_refl). reflexivity.
+  - rewrite C1, C2. reflexivity.
+Qed.
+
+(* COUNTEREXAMPLE 1.  wf_b alone is not an invariant: Model/WF.v accepts any threshold 0 <= sc for a
+   map without table, but the lazily created table has length sc.  (The implementation only ever
+   has sc = 0 there, hence none_ok in the definition of WF.) *)
+Example wf_b_alone_not_preserved :
+  let khash := fun x : N => x in
+  let s := mkSt None 3 0 in
+  wf_b khash s = true /\
+  wf_b khash (fst (step khash (fun _ _ _ => None) (fun _ _ _ => true) s (Insert 1 1 1))) = false.
+Proof. vm_compute. split; reflexivity. Qed.
+
+(* COUNTEREXAMPLE 2.  compute_never_grows needs `sized`: in a well-formed but unreachable state whose
+   counter exceeds the threshold, a removal through compute_if_present doubles the table. *)
+Example compute_grows_when_not_sized :
+  let khash := fun x : N => x in
+  let s := mkSt (Some [BList [N_ 1 1 1 1; N_ 2 2 2 2; N_ 3 3 3 3]]) 1 3 in
+  wf_b khash s = true /\ tlen_s s = 1 /\
+  tlen_s (fst (step khash (fun _ _ _ => None) (fun _ _ _ => true) s (Compute 1 0))) = 4.
+Proof. vm_compute. repeat split; reflexivity. Qed.
+
+Print Assumptions nodes_lists_abs.
+Print Assumptions wf_len.
+Print Assumptions put_refines.
+Print Assumptions try_insert_refines.
+Print Assumptions remove_refines.
+Print Assumptions compute_refines.
+Print Assumptions clear_refines.
+Print Assumptions retain_refines.
+Print Assumptions reserve_refines.
+Print Assumptions extend_refines.
+Print Assumptions readonly_refines.
+Print Assumptions step_refines.
+Print Assumptions step_sized.
+Print Assumptions run_refines.
+Print Assumptions with_capacity_wf.
+Print Assumptions reachable_wf_sized.
+Print Assumptions table_never_shrinks.
+Print Assumptions removal_never_grows.
+Print Assumptions compute_never_grows.
+Print Assumptions growth_only_when_due.
+Print Assumptions compute_callback_before_write.
+Print Assumptions compute_reads_callback_once.
